@@ -12,9 +12,11 @@ import (
 	"math/big"
 	"net/netip"
 	"os"
+	"reflect"
 	"strconv"
 	"strings"
 	"sync"
+	"time"
 )
 
 // A Case is one correspondence case: Coq is a Gallina term of the property's `case` type
@@ -193,3 +195,108 @@ func (i *Intern) ID(s string) uint64 {
 	return v
 }
 func (i *Intern) N(s string) string { return N(i.ID(s)) }
+
+// ---------------------------------------------------------------- deep snapshots
+
+// DeepDump renders a value deeply and canonically (pointers and interfaces followed, slices and arrays by
+// content, functions as set / nil, netip and time values by their textual form), so that two dumps are equal
+// iff nothing reachable changed.  Used for "X never alters the configuration" assertions on the implementation.
+func DeepDump(v any) string {
+	var b strings.Builder
+	deepDump(reflect.ValueOf(v), &b, 0)
+	return b.String()
+}
+
+// DeepDiff returns a short description of the first position at which two dumps differ ("" when equal).
+func DeepDiff(before, after string) string {
+	if before == after {
+		return ""
+	}
+	i := 0
+	for i < len(before) && i < len(after) && before[i] == after[i] {
+		i++
+	}
+	lo := max(0, i-60)
+	return fmt.Sprintf("at byte %d: before ...%s... after ...%s...", i, before[lo:min(len(before), i+60)], after[lo:min(len(after), i+60)])
+}
+
+var (
+	tDumpAddr   = reflect.TypeOf(netip.Addr{})
+	tDumpPrefix = reflect.TypeOf(netip.Prefix{})
+	tDumpTime   = reflect.TypeOf(time.Time{})
+)
+
+func deepDump(v reflect.Value, b *strings.Builder, depth int) {
+	if depth > 14 {
+		b.WriteString("<deep>")
+		return
+	}
+	if !v.IsValid() {
+		b.WriteString("<invalid>")
+		return
+	}
+	switch v.Type() {
+	case tDumpAddr, tDumpPrefix:
+		if v.CanInterface() {
+			fmt.Fprint(b, v.Interface())
+			return
+		}
+	case tDumpTime:
+		if v.CanInterface() {
+			fmt.Fprintf(b, "t%d", v.Interface().(time.Time).UnixNano())
+			return
+		}
+	}
+	switch v.Kind() {
+	case reflect.Ptr, reflect.Interface:
+		if v.IsNil() {
+			b.WriteString("nil")
+			return
+		}
+		fmt.Fprintf(b, "&%s", v.Elem().Type().String())
+		deepDump(v.Elem(), b, depth+1)
+	case reflect.Struct:
+		b.WriteString("{")
+		for i := 0; i < v.NumField(); i++ {
+			f := v.Type().Field(i)
+			if f.Type.Kind() == reflect.Struct && (f.Type.PkgPath() == "sync" || f.Type.PkgPath() == "sync/atomic") {
+				continue // locks are not configuration
+			}
+			fmt.Fprintf(b, "%s:", f.Name)
+			deepDump(v.Field(i), b, depth+1)
+			b.WriteString(",")
+		}
+		b.WriteString("}")
+	case reflect.Slice:
+		if v.IsNil() {
+			b.WriteString("nil[]")
+			return
+		}
+		fallthrough
+	case reflect.Array:
+		fmt.Fprintf(b, "[%d:", v.Len())
+		for i := 0; i < v.Len(); i++ {
+			deepDump(v.Index(i), b, depth+1)
+			b.WriteString(",")
+		}
+		b.WriteString("]")
+	case reflect.Map:
+		fmt.Fprintf(b, "map[%d]", v.Len())
+	case reflect.Func, reflect.Chan:
+		if v.IsNil() {
+			b.WriteString(v.Kind().String() + ":nil")
+		} else {
+			b.WriteString(v.Kind().String() + ":set")
+		}
+	case reflect.String:
+		fmt.Fprintf(b, "%q", v.String())
+	case reflect.Bool:
+		fmt.Fprint(b, v.Bool())
+	case reflect.Int, reflect.Int8, reflect.Int16, reflect.Int32, reflect.Int64:
+		fmt.Fprint(b, v.Int())
+	case reflect.Uint, reflect.Uint8, reflect.Uint16, reflect.Uint32, reflect.Uint64:
+		fmt.Fprint(b, v.Uint())
+	default:
+		fmt.Fprintf(b, "<%s>", v.Kind())
+	}
+}
